@@ -8,7 +8,8 @@ From Coq Require Import NArith List Bool.
 From LC Require Import Base.Lib Gen.Bopomofo_gen Gen.Keyboard_gen Gen.Layout_gen Gen.Readings_gen
   Model.Syllable Model.Keyboard Model.LayoutBase Model.LayoutPinyin Model.Layout Model.LayoutSearch
   Proofs.SyllableProofs Proofs.KeyboardProofs Proofs.LayoutDefs Proofs.LayoutProofs
-  Proofs.LayoutPinyinProofs Proofs.LayoutSoundness Proofs.LayoutCompleteDefs Proofs.LayoutComplete.
+  Proofs.LayoutPinyinProofs Proofs.LayoutSoundness Proofs.LayoutCompleteDefs Proofs.LayoutComplete
+  Proofs.LayoutUnreachAll.
 Import ListNotations.
 Open Scope N_scope.
 
@@ -94,6 +95,26 @@ Theorem C14_known_unreachable_exact : forall kb L,
   kb < n_keyboard -> L < n_layouts -> unreachable_readings kb L = known_unreachable L.
 Proof. exact exact_all. Qed.
 Print Assumptions C14_known_unreachable_exact.
+
+(* ... and the excluded readings are GENUINELY unreachable in the model: no operation
+   sequence of any length (key_press and fuzzy_key_press with any key event,
+   remove_last, clear), under the editor's protocol, makes the layout hand over the
+   reading or a dictionary syllable whose alt_syllables contain it.  So the full
+   statement "every reading can be entered with every layout" is refuted, with
+   exactly the listed class as counter-examples (KNOWN_FINDINGS.json). *)
+Theorem C14_known_unreachable_genuine : forall L r ops st hs,
+  L < n_layouts -> In r (known_unreachable L) -> Forall valid_op ops ->
+  run_editor L lstate_empty ops = Ok (st, hs) ->
+  forall s, In s hs -> ~ would_enter L r s.
+Proof. exact known_unreachable_genuine_all. Qed.
+Print Assumptions C14_known_unreachable_genuine.
+
+Theorem C14_complete_all_readings_refuted : exists L r,
+  L < n_layouts /\ In r readings /\
+  forall ops st hs, Forall valid_op ops -> run_editor L lstate_empty ops = Ok (st, hs) ->
+    forall s, In s hs -> ~ would_enter L r s.
+Proof. exact complete_all_refuted. Qed.
+Print Assumptions C14_complete_all_readings_refuted.
 
 (* the reading table is the model's own parse of the spelled readings; all composable *)
 Theorem C14_readings_table : readings_ok_b = true /\ forall r, In r readings -> composable r.
